@@ -40,6 +40,33 @@ Definition prim_of (s : str) : option str :=
 Definition wrapped (tag : string) (s : str) : option str :=
   if starts (L tag) s && ends_with ">"%char s then Some (mid (String.length tag) 1 s) else None.
 
+(* type_resolver.rs find_top_level_comma / split_top_level (shared by the resolver and the harvester):
+   the first comma outside every pair of angle brackets, parentheses and square brackets; the depth is a
+   signed integer and commas at negative depth are not split *)
+From Coq Require Import ZArith.
+Definition opener (c : ascii) : bool := Ascii.eqb c "<" || Ascii.eqb c "(" || Ascii.eqb c "[".
+Definition closer (c : ascii) : bool := Ascii.eqb c ">" || Ascii.eqb c ")" || Ascii.eqb c "]".
+Fixpoint top_go (d : Z) (pre : str) (s : str) : option (str * str) :=
+  match s with
+  | [] => None
+  | b :: s' =>
+      if opener b then top_go (d + 1) (b :: pre) s'
+      else if closer b then top_go (d - 1) (b :: pre) s'
+      else if Ascii.eqb b "," && (d =? 0)%Z then Some (rev pre, s')
+      else top_go d (b :: pre) s'
+  end.
+(* (s[..pos], s[pos+1..]) for the first top-level comma *)
+Definition find_top (s : str) : option (str * str) := top_go 0 [] s.
+Fixpoint split_top (fuel : nat) (s : str) : list str :=
+  match fuel with
+  | 0 => [s]
+  | S f => match find_top s with Some (a, r) => a :: split_top f r | None => [s] end
+  end.
+Definition split_top_level (s : str) : list str := split_top (S (List.length s)) s.
+(* parse_two_type_params *)
+Definition top2 (s : str) : option (str * str) :=
+  match find_top s with Some (k, v) => Some (trim k, trim v) | None => None end.
+
 Fixpoint parse (fuel : nat) (s0 : str) : option tstruct :=
   match fuel with
   | 0 => None
@@ -48,16 +75,16 @@ Fixpoint parse (fuel : nat) (s0 : str) : option tstruct :=
     if starts (L "&") s then parse f (skipn 1 s) else
     match wrapped "Option<" s with Some inner => option_map TOpt (parse f inner) | None =>
     match wrapped "Result<" s with
-    | Some inner =>                      (* extract_result_ok_type: FIRST comma, no depth *)
-        let ok := match find_char ","%char inner with Some i => trim (firstn i inner) | None => inner end in
+    | Some inner =>                      (* extract_result_ok_type: first top-level comma *)
+        let ok := match find_top inner with Some (a, _) => trim a | None => inner end in
         option_map TRes (parse f ok)
     | None =>
     match wrapped "Vec<" s with Some inner => option_map TArr (parse f inner) | None =>
     match (match wrapped "HashMap<" s with
-           | Some inner => match split2_angle inner with Some kv => Some kv | None => None end
+           | Some inner => match top2 inner with Some kv => Some kv | None => None end
            | None => None end),
           (match wrapped "BTreeMap<" s with
-           | Some inner => split2_angle inner
+           | Some inner => top2 inner
            | None => None end) with
     | Some (k, v), _ | None, Some (k, v) =>
         match parse f k, parse f v with Some k', Some v' => Some (TMap k' v') | _, _ => None end
@@ -68,7 +95,7 @@ Fixpoint parse (fuel : nat) (s0 : str) : option tstruct :=
     if starts (L "(") s && ends_with ")"%char s then
       let inner := mid 1 1 s in
       if all_blank inner then Some (TPrim (L "void"))
-      else option_map TTuple (mapM (parse f) (map trim (split_naive ","%char inner)))   (* naive split(',') *)
+      else option_map TTuple (mapM (parse f) (map trim (split_top_level inner)))
     else match prim_of s with Some p => Some (TPrim p) | None => Some (TCustom s) end
     end end end end end
   end.
